@@ -631,7 +631,9 @@ func parseField(v reflect.Value, pd *perBitData, params fieldParameters) error {
 	}
 	sizeExtensible := false
 	valueExtensible := false
-	if params.sizeExtensible {
+	// the size extension bit belongs to strings and SEQUENCE OF; a SEQUENCE-typed wrapper whose field tag
+	// repeats the size constraint of the string inside it (BackupAMFName *AMFName) has none
+	if params.sizeExtensible && (v.Kind() != reflect.Struct || fieldType == BitStringType) {
 		if bitsValue, err1 := pd.getBitsValue(1); err1 != nil {
 			return err1
 		} else if bitsValue != 0 {
